@@ -3,11 +3,12 @@
 spec/traverse/BlockTraverse.tla
   MC : MCBlockTraverse - the traversal as the code performs it (clone_tx_at per index: parts by position, success
        from the invalid list, aux data by key scan) against the declarative Txs(b), for every block with <= 3
-       transactions, any invalid subset (incl. an out-of-range index), any sparse aux map, wrapper tags 2..7
+       transactions, any invalid *list* of length <= 2 (3 thorough; unsorted, repeated, out-of-range indices), any sparse aux map in
+       ascending / descending / rotated wire order, wrapper tags 2..7
   M1 : GenBlockTraverse - each of those blocks built as CBOR around a real header of the era (labelled parts:
        fee / vkey / metadata label), MultiEraBlock::decode, era / tx_count / txs read through the public API
-  M3 : all test_data blocks, immutable-DB chunk blocks and generated variants of real blocks (random invalid lists,
-       re-keyed aux maps), projected from the wire bytes; era / tx_count / per-tx parts validated by TraceBlockTraverse
+  M3 : all test_data blocks, immutable-DB chunk blocks and generated variants of real blocks (random invalid lists in any
+       order with repeated / out-of-range indices, aux maps re-keyed sparsely and written in random order), projected from the wire bytes; era / tx_count / per-tx parts validated by TraceBlockTraverse
 """
 import json
 import os
@@ -22,16 +23,17 @@ def run(ctx):
                "KeepRaw bytes of the traversed MultiEraTx (M3) or through fee / vkey / metadata labels (M1)")
     ctx.assume("blocks have as many witness sets as bodies and distinct aux keys (others are skipped: property silent)")
 
-    max_tx = 5 if ctx.thorough else 3
+    max_tx = 4 if ctx.thorough else 3
     cfg = ctx.path("MC.cfg")
     src = open(os.path.join(vlib.SPEC, SPEC_DIR, "MCBlockTraverse.cfg")).read()
-    open(cfg, "w").write(src.replace("MaxTx = 3", "MaxTx = %d" % max_tx))
+    max_inv = 3 if ctx.thorough else 2
+    open(cfg, "w").write(src.replace("MaxTx = 3", "MaxTx = %d" % max_tx).replace("MaxInv = 3", "MaxInv = %d" % max_inv))
     ctx.tlc_mc(SPEC_DIR, "MCBlockTraverse", cfg, workers=4, timeout=1700, required_actions=["CloneTxAt", "Collect"])
 
     # M1
     gcfg = ctx.path("Gen.cfg")
     src = open(os.path.join(vlib.SPEC, SPEC_DIR, "GenBlockTraverse.cfg")).read()
-    open(gcfg, "w").write(src.replace("MaxTx = 3", "MaxTx = %d" % max_tx))
+    open(gcfg, "w").write(src.replace("MaxTx = 3", "MaxTx = %d" % max_tx).replace("MaxInv = 3", "MaxInv = %d" % max_inv))
     vec = ctx.path("vectors.ndjson")
     n = ctx.tlc_gen(SPEC_DIR, "GenBlockTraverse", gcfg, vec, timeout=1700)
     res = ctx.path("replay_results.ndjson")
@@ -44,7 +46,7 @@ def run(ctx):
     ctx.cov["m1_vectors"] = len(rows)
     with open(vec) as f:
         for i, line in enumerate(f):
-            if i == 700:
+            if i == 1500:
                 ctx.sample({"tlc_vector": json.loads(line)})
                 break
     seen = set()
@@ -107,7 +109,12 @@ def run(ctx):
             break
     ctx.cov["traces_validated_against_impl"] += len(events)
     ctx.cov["evaluations"] += len(events)
-    small = next(e for e in blocks if "~v" in e["src"] and len(e["txs"]) <= 4 and e["blk"]["invalid"])
+    unsorted = [e for e in blocks if e["blk"]["invalid"] != sorted(e["blk"]["invalid"])]
+    ctx.cov["m3_blocks_with_unsorted_invalid_list"] = len(unsorted)
+    ctx.cov["m3_blocks_with_unsorted_aux_keys"] = sum(1 for e in blocks if [p[0] for p in e["blk"]["aux"]] != sorted(p[0] for p in e["blk"]["aux"]))
+    if len(unsorted) < 5:
+        raise vlib.ToolError("generated variants do not exercise unsorted invalid lists")
+    small = next(e for e in unsorted if len(e["txs"]) <= 6)
     ctx.sample({"impl_trace_event": small})
 
     # binding self-test
@@ -138,7 +145,7 @@ def run(ctx):
         ctx.selftest("drop event %d" % (idx + 1), (not ok3) and m3 == idx)
 
     return ctx.finish(
-        rule="MC: step-wise traversal = Txs(b) for all blocks with <= %d txs (any invalid subset, any sparse aux map, "
+        rule="MC: step-wise traversal = Txs(b) for all blocks with <= %d txs (any invalid list incl. unsorted/repeated/out-of-range, sparse aux maps in several wire orders, "
              "tags 2..7); M1: each of them built as CBOR and traversed through the public API; M3: corpus blocks, chunk "
              "blocks and generated variants of real blocks validated by TraceBlockTraverse" % max_tx,
         exhaustive=False)
